@@ -31,3 +31,14 @@ Inductive Stmt :=
 | Stmt_NumericFor (u : unit) | Stmt_Repeat (u : unit) | Stmt_While (u : unit)
 | Stmt_CompoundAssignment (c : CompoundNode) | Stmt_ExportedTypeDeclaration (u : unit) | Stmt_TypeDeclaration (u : unit)
 | Stmt_ExportedTypeFunction (u : unit) | Stmt_TypeFunction (u : unit) | Stmt_Goto (u : unit) | Stmt_Label (u : unit).
+
+(* get_quote_to_use (src/formatters/general.rs): the configured style, the quote kinds, strings as character lists.
+   `unreachable!()` is mirrored by a distinguished value which the theorems show is never returned. *)
+From Coq Require Import List Ascii Arith.
+Inductive QuoteStyle := QuoteStyle_AutoPreferDouble | QuoteStyle_AutoPreferSingle | QuoteStyle_ForceDouble | QuoteStyle_ForceSingle.
+Inductive StringLiteralQuoteType := StringLiteralQuoteType_Brackets | StringLiteralQuoteType_Double | StringLiteralQuoteType_Single | StringLiteralQuoteType_Unreachable.
+Definition rs_unreachable := StringLiteralQuoteType_Unreachable.
+Inductive Ordering := std_cmp_Ordering_Less | std_cmp_Ordering_Equal | std_cmp_Ordering_Greater.
+Definition nat_cmp (a b : nat) : Ordering := match Nat.compare a b with Lt => std_cmp_Ordering_Less | Eq => std_cmp_Ordering_Equal | Gt => std_cmp_Ordering_Greater end.
+Definition str_contains (s : list ascii) (c : ascii) : bool := existsb (Ascii.eqb c) s.
+Fixpoint str_count (s : list ascii) (c : ascii) : nat := match s with nil => 0 | x :: r => (if Ascii.eqb x c then 1 else 0) + str_count r c end.
